@@ -172,6 +172,15 @@ def generate(tier):
                        '    for (i, (a, ta)) in vs.iter().enumerate() {\n        for (j, (b, tb)) in vs.iter().enumerate() {\n'
                        '            r.ck((a == b) == (ta == tb), (ta == tb) as u64, &|| format!("values #{} and #{}: == gives {}, #[derive(PartialEq)] gives {}", i, j, a == b, ta == tb));\n'
                        '            r.ck((a != b) == (ta != tb), 2, &|| format!("values #{} and #{}: != gives {}", i, j, a != b));\n        }\n    }\n')
+    from .common import ZOO_FLOAT
+    cases += zoo_cases('C02|float', 'PartialEq', 'Debug, Clone', 'Debug, Clone, PartialEq',
+                       '    for (i, (a, ta)) in vs.iter().enumerate() {\n        for (j, (b, tb)) in vs.iter().enumerate() {\n'
+                       '            r.ck((a == b) == (ta == tb), (ta == tb) as u64, &|| format!("values #{} and #{}: == gives {}, #[derive(PartialEq)] gives {}", i, j, a == b, ta == tb));\n'
+                       '            r.ck((a != b) == (ta != tb), 2, &|| format!("values #{} and #{}: != gives {}", i, j, a != b));\n        }\n    }\n', zoo=ZOO_FLOAT)
+    cases += zoo_cases('C02|float-eq', 'PartialEq, Eq', 'Debug, Clone', 'Debug, Clone, PartialEq',
+                       '    for (i, (a, ta)) in vs.iter().enumerate() {\n        for (j, (b, tb)) in vs.iter().enumerate() {\n'
+                       '            r.ck((a == b) == (ta == tb), (ta == tb) as u64, &|| format!("values #{} and #{}: == gives {}, #[derive(PartialEq)] gives {}", i, j, a == b, ta == tb));\n'
+                       '            r.ck((a != b) == (ta != tb), 2, &|| format!("values #{} and #{}: != gives {}", i, j, a != b));\n        }\n    }\n', zoo=ZOO_FLOAT)
     from .common import rawify
     for c in [x for x in cases if x.key.startswith('C02|P|s:n2|') or x.key.startswith('C02|EP|e:n2,n1|') or x.key.startswith('C02|PE|s:n3|')]:
         r_ = rawify(c)
